@@ -214,6 +214,7 @@ func VerifyFunc(p *Program, fc *FuncContract, opts VerifyOpts) (rep *FuncReport)
 	cover := x.emit("cover", "requires", st, TrueT, "precondition satisfiable")
 	cover.Expect = "sat"
 	var exitPCs [][]*Term
+	reachSeen, reachMembers := map[string]bool{}, map[string]int{}
 	x.runFunction(fn, args, st, 0, "", nil, func(st2 *State, res []*Val) {
 		if len(exitPCs) < 8 {
 			exitPCs = append(exitPCs, append([]*Term(nil), st2.PC...))
@@ -229,6 +230,40 @@ func VerifyFunc(p *Program, fc *FuncContract, opts VerifyOpts) (rep *FuncReport)
 					post.vars[n] = res[i]
 				}
 			}
+		}
+		// acceptance witnesses: one member per return path on which the clause's names are in scope; the group holds if any
+		// member is satisfiable
+		for ri, rc := range fc.Reach {
+			lbl := fmt.Sprintf("reach#%d", ri+1)
+			if rc.Tag != "" {
+				lbl = "reach:" + rc.Tag
+			}
+			renv := *post
+			fr0, blk0 := x.retFr, x.retBlk
+			if fr0 != nil && blk0 != nil {
+				renv.resolve = func(name string) *Val { return x.resolveLocal(fr0, st2, blk0, name) }
+			}
+			var g *Term
+			func() {
+				defer func() {
+					if r := recover(); r != nil {
+						if _, ok := r.(specError); !ok {
+							panic(r)
+						}
+						g = nil // a name of the clause is not in scope at this return: not a member
+					}
+				}()
+				g = renv.evalBool(rc.E)
+			}()
+			reachSeen[lbl] = true
+			if g == nil {
+				continue
+			}
+			o := x.emit("cover", lbl, st2, TrueT, "acceptance witness: "+rc.Text)
+			o.Hyps = append(o.Hyps, g)
+			o.Expect = "sat"
+			o.Group = x.topKey + "/" + lbl
+			reachMembers[lbl]++
 		}
 		var hints []*Term
 		for _, u := range fc.UsesPost {
@@ -266,6 +301,16 @@ func VerifyFunc(p *Program, fc *FuncContract, opts VerifyOpts) (rep *FuncReport)
 			// one member per return path explored (up to 8); the group holds if any member is satisfiable
 			x.obs = append(x.obs, &Obligation{Name: fmt.Sprintf("%s/cover@exit#%d", x.topKey, i+1), Kind: "cover", Func: x.topKey, Hyps: pc, Goal: TrueT, Axioms: x.axioms,
 				Opaque: x.opaque, Note: "a return of the function is reachable", SpecDefs: x.specDefs, Expect: "sat", Group: x.topKey + "/cover@exit"})
+		}
+	}
+	for ri, rc := range fc.Reach {
+		lbl := fmt.Sprintf("reach#%d", ri+1)
+		if rc.Tag != "" {
+			lbl = "reach:" + rc.Tag
+		}
+		if reachMembers[lbl] == 0 && x.aborted == "" {
+			x.obs = append(x.obs, &Obligation{Name: x.topKey + "/cover@" + lbl, Kind: "cover", Func: x.topKey, Goal: FalseT, Axioms: x.axioms, Opaque: x.opaque,
+				Note: "acceptance witness: " + rc.Text + " (no return path has the clause's names in scope)", SpecDefs: x.specDefs, Expect: "sat"})
 		}
 	}
 	if x.aborted != "" {
